@@ -247,6 +247,19 @@ func Build(o Opts) (*Persona, error) {
 		}
 		oid := chipsim.PaceOID(mapping, cp)
 		cfg.PACE = []chipsim.PaceEntry{{OID: oid, ParamID: o.PaceID}}
+		if mapping == "GM" && len(o.Seed) > 2 && o.Seed[2]&3 == 1 {
+			// a second supported suite on ANOTHER parameter id, listed first (the chip offers both; which
+			// one a reader prefers is its business, but protocol and parameter id must come from one entry)
+			other, ocp := 12, mac.Cipher("3DES")
+			if o.PaceID == 12 {
+				other = 13
+			}
+			if cp == "3DES" {
+				ocp = "AES-128"
+			}
+			cfg.PACE = append(cfg.PACE, chipsim.PaceEntry{OID: chipsim.PaceOID("GM", ocp), ParamID: other})
+			caInfos = append(caInfos, lds.PACEInfo(chipsim.PaceOID("GM", ocp), 2, big.NewInt(int64(other))))
+		}
 		caInfos = append(caInfos, lds.PACEInfo(oid, 2, pid))
 		if o.Access == "PACE-CAM" {
 			// CAM documents also advertise GM
@@ -335,6 +348,12 @@ func Build(o Opts) (*Persona, error) {
 			cv := ecc.ByName(o.AACurve)
 			sk := cv.ScalarFromBytes(src.Bytes(cv.ByteLen + 8))
 			aa.Curve, aa.Priv, aa.DERSig = cv, sk, o.AADER
+			if !o.AADER && cv.ByteLen <= 32 && len(o.Seed) > 3 && o.Seed[3]&3 == 0 {
+				// plain r||s signatures whose first octet looks like something else (a DER SEQUENCE tag,
+				// a leading zero): on the fast curves the chip searches its nonce for one
+				v := []byte{0x30, 0x00, 0x02, 0x30}[int(o.Seed[3]>>2)&3]
+				aa.SteerFirstOctet = &v
+			}
 			spki = cv.SPKIExplicit(cv.ScalarBaseMult(sk), true, false)
 			if o.SubstituteAAKey || o.CloneWithoutKeys {
 				aa.Priv = cv.ScalarFromBytes(src.Bytes(cv.ByteLen + 8))
